@@ -48,6 +48,10 @@ def gen(rng, tier):
                        localcut3=rng.choice([0.0, 0.3, 0.5]), numerals=rng.choice([0.0, 0.2]), constcmp=rng.choice([0.0, 0.15]))
         p = progs.gen_program(rng, o)
         cases.append({'clauses': p['clauses'], 'queries': p['queries'], 'shape': 'round4'})
+    # bodies at CPython's limit of 20 nested blocks (18 .. 20) and just beyond (21, 22: the compiler must refuse) ending in a disjunction /
+    # if-then-else / negation / condition with a cut of its own (no clause-level cut: those are C05's)
+    for _ in range(30 if tier == 'quick' else 300):
+        cases.append(progs_r4.gen_limit_body_program(rng, cuts=False))
     cases.extend(progs_r4.exhaustive_neg_builtin_cases())
     cases.extend(progs_r4.exhaustive_local_cut3_cases(tier != 'quick'))
     return cases
@@ -101,6 +105,7 @@ def nontrivial(case, io):
 def distribution(cases, obs):
     d = semcheck.stats(cases, obs)
     d['exhaustive_small_scope_bodies'] = sum(1 for c in cases if c.get('origin') == 'exhaustive')
+    d['limit_body_programs'] = sum(1 for c in cases if c.get('shape', '').startswith('limit-body'))
     d['exhaustive_negated_builtin_programs'] = sum(1 for c in cases if c.get('origin') == 'exhaustive-neg-builtin')
     d['exhaustive_three_level_local_cut_programs'] = sum(1 for c in cases if c.get('origin') == 'exhaustive-local-cut3')
     d['exhaustive_continuation_duplication_bodies'] = sum(1 for c in cases if c.get('origin') == 'exhaustive-contdup')
